@@ -74,6 +74,7 @@ type tev struct {
 	Msgs    []int  `json:"msgs,omitempty"`
 	Others  []int  `json:"others,omitempty"`
 	ChOth   []int  `json:"ch_others,omitempty"` // channel entries listed in a common difference's other_updates
+	Aff     []int  `json:"affected,omitempty"`  // self-initiated (position-only) entries whose range the response covers
 	Final   bool   `json:"final,omitempty"`
 
 	Note string `json:"note,omitempty"`
@@ -300,6 +301,9 @@ func (sc *scenario) container(ev *event) tg.UpdatesClass {
 	users := map[int64]bool{}
 	chans := map[int64]bool{}
 	for _, e := range ev.Entries {
+		if e.Kind.isAffected() {
+			continue // announced through HandleAffected, never pushed
+		}
 		u.Updates = append(u.Updates, buildUpdate(e))
 		if e.Cls == clsChan {
 			chans[e.Ch] = true
@@ -321,6 +325,9 @@ func (sc *scenario) container(ev *event) tg.UpdatesClass {
 	}
 	for id := range chans {
 		u.Chats = append(u.Chats, chanObj(sc.chanSpecOf(id)))
+	}
+	if len(u.Updates) == 0 {
+		return nil // only self-initiated entries: nothing is pushed
 	}
 	// entries inside a container arrive in no particular order
 	if len(u.Updates) > 1 && ev.Idx%2 == 1 {
@@ -437,6 +444,8 @@ func (r *run) UpdatesGetDifference(ctx context.Context, req *tg.UpdatesGetDiffer
 	)
 	for _, e := range append(append([]*entry(nil), duePts...), dueQts...) {
 		switch {
+		case e.Kind == kAffected:
+			ev.Aff = append(ev.Aff, e.UID) // nothing to hand over, the state covers it
 		case e.Kind == kNewMsg:
 			msgs = append(msgs, msgOf(e))
 			ev.Msgs = append(ev.Msgs, e.UID)
@@ -456,7 +465,7 @@ func (r *run) UpdatesGetDifference(ctx context.Context, req *tg.UpdatesGetDiffer
 			list, _ := r.visible(clsChan, ch.ID)
 			listed := false
 			for _, e := range list {
-				if e.Date <= req.Date {
+				if e.Date <= req.Date || e.Kind.isAffected() {
 					continue
 				}
 				chats[ch.ID] = true
@@ -471,7 +480,7 @@ func (r *run) UpdatesGetDifference(ctx context.Context, req *tg.UpdatesGetDiffer
 		}
 	}
 	ev.Pts, ev.Qts, ev.Seq, ev.Date, ev.Final = statePts, stateQts, headSeq, headDate, final
-	if len(msgs) == 0 && len(enc) == 0 && len(others) == 0 {
+	if len(msgs) == 0 && len(enc) == 0 && len(others) == 0 && len(ev.Aff) == 0 {
 		ev.Resp = "empty"
 		r.rec(ev)
 		return &tg.UpdatesDifferenceEmpty{Date: headDate, Seq: headSeq}, nil
@@ -548,6 +557,10 @@ func (r *run) UpdatesGetChannelDifference(ctx context.Context, req *tg.UpdatesGe
 		others []tg.UpdateClass
 	)
 	for _, e := range due {
+		if e.Kind == kChAffected {
+			ev.Aff = append(ev.Aff, e.UID)
+			continue
+		}
 		if e.Kind == kChMsg {
 			msgs = append(msgs, chMsgOf(e))
 			ev.Msgs = append(ev.Msgs, e.UID)
@@ -564,7 +577,7 @@ func (r *run) UpdatesGetChannelDifference(ctx context.Context, req *tg.UpdatesGe
 		ev.Note = fmt.Sprintf("probe=%d", m)
 	}
 	ev.Pts, ev.Final = pts, final
-	if len(msgs) == 0 && len(others) == 0 {
+	if len(msgs) == 0 && len(others) == 0 && len(ev.Aff) == 0 {
 		ev.Resp = "empty"
 		r.rec(ev)
 		return &tg.UpdatesChannelDifferenceEmpty{Final: true, Pts: head}, nil
@@ -832,6 +845,26 @@ func (r *run) push(u tg.UpdatesClass) bool {
 	return true
 }
 
+// announceAffected reports the self-initiated entries of an event the way
+// hook.AffectedHook does with a messages.affected* result. The call goes through
+// the manager's own affected queue, so it is naturally reordered against pushed
+// containers.
+func (r *run) announceAffected(ev *event) {
+	for _, e := range ev.Entries {
+		if !e.Kind.isAffected() {
+			continue
+		}
+		r.mu.Lock()
+		r.rec(tev{T: "affcall", UID: e.UID})
+		r.mu.Unlock()
+		ctx, cancel := context.WithTimeout(context.Background(), r.watchdog)
+		if err := r.mgr.HandleAffected(ctx, e.Ch, e.End, e.Count); err != nil && r.problem == "" {
+			r.problem = "HandleAffected blocked: " + err.Error()
+		}
+		cancel()
+	}
+}
+
 // pushPlan executes the delivery plan (events happen on the server in order,
 // containers are pushed late, twice or never).
 func (r *run) pushPlan() bool {
@@ -855,12 +888,20 @@ func (r *run) pushPlan() bool {
 			r.mu.Unlock()
 		}
 		if op.Deliver >= 0 {
-			u := r.sc.container(r.sc.Events[op.Deliver])
-			if second != nil && i%2 == 1 {
-				second <- u
-			} else if !r.push(u) {
-				ok = false
-				break
+			ev := r.sc.Events[op.Deliver]
+			if ev.Idx%2 == 0 {
+				r.announceAffected(ev)
+			}
+			if u := r.sc.container(ev); u != nil {
+				if second != nil && i%2 == 1 {
+					second <- u
+				} else if !r.push(u) {
+					ok = false
+					break
+				}
+			}
+			if ev.Idx%2 == 1 {
+				r.announceAffected(ev)
 			}
 		}
 	}
@@ -1014,7 +1055,7 @@ func (r *run) round() (fixpoint, ok bool) {
 		case "deliver":
 			fixpoint = false
 		case "diff", "chdiff":
-			if len(e.Msgs)+len(e.Others)+len(e.ChOth) > 0 || e.Resp == "tooLong" || e.Resp == "slice" {
+			if len(e.Msgs)+len(e.Others)+len(e.ChOth)+len(e.Aff) > 0 || e.Resp == "tooLong" || e.Resp == "slice" {
 				fixpoint = false
 			}
 		}
